@@ -418,6 +418,8 @@ ItMix(kind, sx, w, adv, consumer) ==
         /\ out' = IF ~x.ok THEN Panic
                   ELSE CASE consumer \in {"next", "fold", "for_each", "collect", "peekable", "enumerate", "zip"} -> [items |-> rest]
                          [] consumer = "count" -> [count |-> n]
+                         [] consumer = "overshoot_count" -> [count |-> 0]       \* a jump past the end yields nothing, ever
+                         [] consumer = "overshoot_next" -> [items |-> <<>>]
                          [] consumer = "last" -> IF n = 0 THEN [some |-> FALSE] ELSE [some |-> TRUE, item |-> rest[n]]
                          [] consumer = "skip1" -> [items |-> SubSeq(rest, 2, n)]
                          [] consumer = "step2" -> [items |-> [i \in 1 .. ((n + 1) \div 2) |-> rest[2 * i - 1]]]
